@@ -533,6 +533,10 @@ def main():
     if os.path.realpath(a.repo) != "/repo":
         # a scratch copy (self-tests, seeded changes): never overwrite the evidence of /repo itself
         EVID = os.path.join(B.CACHE, "evidence-scratch")
+        # and build its units in a private cache so that a concurrent run on /repo is not disturbed
+        import atexit, shutil
+        B.CACHE = os.path.join(B.CACHE, "scratch-%d" % os.getpid())
+        atexit.register(lambda: shutil.rmtree(B.CACHE, ignore_errors=True))
     seed = int(os.environ.get("VERIF_SEED", "0") or 0)
     t0 = time.time()
     os.makedirs(EVID, exist_ok=True)
